@@ -25,8 +25,14 @@ FIXED_SYNTHETIC = [
 BIG_XML = ("192em64t-12gr2n8c2t.xml", "192em64t-24n8c2t.xml", "96em64t-4n4d3ca2co-pci.xml", "irregulargroups-disallowed.xml")
 
 
+# hand-made XML sources: no gp_index/id attributes at all (objects numbered in document order by the importer); ids in
+# document order with one index missing before the end; sparse out-of-order ids with the largest one last
+OWN_XML = [os.path.join(C.VERIF, "corpus", "c02", n) for n in
+           ("xml-without-ids.xml", "xml-ids-document-order-gap.xml", "xml-ids-sparse-largest-last.xml")]
+
+
 def xml_pool(quick):
-    xs = S.xml_corpus()
+    xs = S.xml_corpus() + OWN_XML
     if quick:
         xs = [x for x in xs if os.path.basename(x) not in BIG_XML]
     return xs
@@ -66,7 +72,8 @@ def gen_config(rng, quick=True, kind=None):
     else:
         lines.append("env HWLOC_LIBXML_IMPORT %d" % rng.choice([0, 1]))
         pool = xml_pool(quick)
-        special = [x for x in pool if os.path.basename(x) in ("16em64t-4s2c2t-offlines.xml", "16amd64-8n2c-cpusets.xml", "irregulargroups-disallowed.xml", "memorysidecaches.xml")]
+        special = [x for x in pool if os.path.basename(x) in ("16em64t-4s2c2t-offlines.xml", "16amd64-8n2c-cpusets.xml", "irregulargroups-disallowed.xml", "memorysidecaches.xml",
+                                                             "xml-without-ids.xml", "xml-ids-document-order-gap.xml", "xml-ids-sparse-largest-last.xml")]
         lines.append("src xml " + (rng.choice(special) if special and rng.random() < 0.3 else rng.choice(pool)))
     return lines, kind
 
@@ -268,6 +275,16 @@ def gen_history(rng, maxlen):
                 mid.append(rng.choice(["ud %s" % r, "subtype %s s" % r, "info_add %s a b" % r]))
             j = rng.randint(i + 1, len(calls))
             calls[j:j] = mid + [again]
+    if rng.random() < 0.4:
+        # XML round trips inside the history: right before the first call that creates an object, and at random points
+        creating = [i for i, c in enumerate(calls) if c.startswith(("misc ", "group ")) or (c.startswith("dist ") and " flags=1" in c or " flags=3" in c)]
+        points = set()
+        if creating and rng.random() < 0.7:
+            points.add(creating[0])
+        for _ in range(rng.randint(0, 2)):
+            points.add(rng.randrange(0, len(calls) + 1))
+        for i in sorted(points, reverse=True):
+            calls.insert(i, "reload %d" % rng.choice([0, 0, 1]))
     if rng.random() < 0.5:
         calls.append("touch")
     return calls
@@ -351,6 +368,15 @@ DIRECTED += [
      ["allow 4 ~b2\\b3 ~b1", "reload 0", "restrict ~b0 24", "restrict b0+b1+b2+b4+b5 1", "restrict full 16"]),
     ("reload-disallowed-then-group-misc", ["filter 19 0", "flags 1", "src synthetic pack:4 numa:1 pu:2"],
      ["allow 4 ~b6 b0+b1+b3", "reload 0", "group cs=b0+b1+b2+b3", "misc #t14.1 m", "restrict b0+b1+b3 24", "restrict b0+b1+b2+b3 0"]),
+    # gp_index of objects created after an XML (re)load must be fresh: ids in document order / absent / largest last
+    ("reload-then-insert-fresh-gp", ["filter 19 0", "flags 0", "src xml " + OWN_XML[0]],
+     ["restrict ~b1 0", "reload 0", "misc #0 x", "group cs=b4+b5+b6", "reload 0", "misc #3 y"]),
+    ("xml-ids-gap-then-insert", ["filter 19 0", "flags 0", "src xml " + OWN_XML[1]],
+     ["misc #0 x", "group cs=b0+b1+b2", "dist name=l kind=6 flags=1 objs=type:3 vals=blk:2:10:20:40"]),
+    ("xml-ids-sparse-then-insert", ["filter 19 0", "flags 0", "src xml " + OWN_XML[2]],
+     ["group cs=b4+b5+b6", "misc #0 x", "reload 0", "group free", "misc #0 z", "reload 0", "misc #1 w"]),
+    ("synthetic-restrict-reload-insert", ["filter 19 0", "flags 0", "src synthetic pack:2 core:2 pu:2"],
+     ["restrict ~b1 0", "reload 0", "misc #0 x", "restrict ~b2 0", "reload 0", "group cs=b4+b5+b6", "misc #2 y"]),
     ("dontmerge-mixed-group-level", ["flags 0", "src synthetic pack:1 core:4 pu:1"],
      ["group cs=b0+b1", "group cs=b2+b3 dm=1", "restrict b0+b2 0"]),
     ("dontmerge-mixed-group-level-reversed", ["flags 0", "src synthetic pack:1 core:6 pu:1"],
